@@ -24,7 +24,7 @@ such that `Style.parse(SGR_STYLE_MAP[k])` sets exactly that bit; 30-37 / 90-97 /
 parse to the sixteen standard colours and `default` on the right side; every entry parses; 38 and 48 are
 not in the table (they would shadow the extended-colour sub-parsers); the off codes 22-29, 54, 55 only switch
 off the attributes ECMA-48 assigns to them.  For every `Style` variant. -/
-theorem sgr_table_inverts_style_map (v : Variant) : tablesOk v = true := tablesOk_all v
+theorem sgr_table_inverts_style_map (v : StyleVariant) : tablesOk v = true := tablesOk_all v
 
 /-- `str(n)` for `n ≤ 255` is made of characters `str.isdigit` accepts, `int()` reads it back as `n`, and it
 contains none of `;`, `m`, newline, ESC, CR. -/
@@ -153,7 +153,7 @@ theorem old_flush_prints_raw :
 /-- F10 through the proxy, code as found: `write("q\n\x1b[²m\n")` raises and prints nothing — the complete
 line `q` is lost (`units` says it must be printed). -/
 theorem old_write_loses_line :
-    (run ⟨Variant.fixed, true, false⟩ Proxy.init [.write ['q', '\n', ESC, '[', '²', 'm', '\n']]).2 = [.raised .valueError] ∧
+    (run ⟨StyleVariant.fixed, true, false⟩ Proxy.init [.write ['q', '\n', ESC, '[', '²', 'm', '\n']]).2 = [.raised .valueError] ∧
     units [.write ['q', '\n', ESC, '[', '²', 'm', '\n']] = [['q'], [ESC, '[', '²', 'm']] := by
   decide +kernel
 
@@ -165,7 +165,7 @@ def sampleStyle : Style :=
     link := some ['h', ':', 'x'], hash := ⟨none, none, none, none, none⟩, isNull := false, styleDef := none }
 
 def sampleSegs : List Seg :=
-  [⟨['a', 'b'], some sampleStyle, ['1', '.', '5']⟩, ⟨[' '], none, []⟩, ⟨['c'], some (fromColor Variant.fixed (some defaultColor) none), []⟩]
+  [⟨['a', 'b'], some sampleStyle, ['1', '.', '5']⟩, ⟨[' '], none, []⟩, ⟨['c'], some (fromColor StyleVariant.fixed (some defaultColor) none), []⟩]
 
 example : ∀ g ∈ sampleSegs, SegOk g := by
   intro g hg
